@@ -587,14 +587,16 @@ def oracle(case, obs, temp_parts=None):
     if obs["root_listing"] != ["d", "elsewhere"]:
         new += ["../" + n for n in obs["root_listing"] if n not in ("d", "elsewhere")]
     # guards
+    # (which exception is raised is compared with the model, not demanded here: the property only says
+    #  that a directory is never written to and an existing file never replaced without the flag)
     if st in ("dir", "dir_nonempty", "symlink_dir"):
-        if obs["exc"] != "IsADirectoryError":
-            out.append({"kind": "directory-guard", "detail": f"raised {obs['exc']} instead of IsADirectoryError"})
+        if obs["exc"] is None:
+            out.append({"kind": "directory-guard", "detail": "returned normally although the destination is a directory"})
         if after != before:
             out.append({"kind": "directory-written", "detail": "the directory at the destination changed"})
     elif st in ("file", "emptyfile", "symlink_file") and not case["ov"]:
-        if obs["exc"] != "FileExistsError":
-            out.append({"kind": "exists-guard", "detail": f"raised {obs['exc']} instead of FileExistsError"})
+        if obs["exc"] is None:
+            out.append({"kind": "exists-guard", "detail": "returned normally although the file exists and overwrite=False"})
         if after != before:
             out.append({"kind": "replaced-without-overwrite", "detail": "existing file changed although overwrite=False"})
     elif obs["exc"] is not None:
@@ -782,7 +784,9 @@ def eval_problem(args):
                                 "exc": obs["exc"], "exc_msg": obs["exc_msg"], "pre": obs["pre"], "post": obs["post"]}})
     nobj = ref["nf"]
     return {"i": i, "error": None, "results": results, "nobj": nobj, "nw": ref["nw"],
-            "incomplete": cases[0].get("incomplete") if cases else None}
+            "incomplete": cases[0].get("incomplete") if cases else None,
+            "text": text, "render_req": "render " + wire_problem(ref) if ref["bytes"] is not None else None,
+            "ref_bytes": ref["bytes"].hex() if ref["bytes"] is not None else None}
 
 
 def slim(obs):
@@ -992,6 +996,23 @@ def run(ctx):
             ctx.broken_obligations.append({
                 "obligation": "correspondence: run_writer (Gen/Writer.v step list) vs the real write_to_file under fault injection",
                 "detail": {"n": len(corr_bad), "first": corr_bad[0]}})
+    # ---- 3b. the complete file has MCNP's block structure: the bytes of a fault-free real write are the
+    #          model's spec_render of the recorded lines (what C15_success promises about the model)
+    if wire is not None or ok:
+        rr = [o for o in outs if not o["error"] and o.get("render_req")]
+        rans = vlib.model_ask("Write", [o["render_req"] for o in rr]) if rr else []
+        for o, a in zip(rr, rans):
+            ctx.cov["disagreements_checked"] += 1
+            if a != o["ref_bytes"]:
+                exp = unhx(a) if not a.startswith("parse:") else a
+                got = unhx(o["ref_bytes"])
+                k = next((x for x in range(min(len(exp), len(got))) if exp[x] != got[x]), min(len(exp), len(got)))
+                ctx.fail({"kind": "block-structure", "case": {"text": o["text"], "incomplete": None, "state": "absent",
+                                                             "ov": False, "style": "abs", "faults": []},
+                          "detail": {"first_difference_at": k, "written": got[max(0, k - 80):k + 80],
+                                     "expected": exp[max(0, k - 80):k + 80]}})
+                if len(ctx.violations) >= 5:
+                    break
     # ---- 4. oracle failures: shrink the first of each kind, hand every one to the findings filter
     for kind, lst in fail_cases.items():
         shrunk_done = 0
